@@ -241,6 +241,163 @@ Proof.
     + unfold stores_at in *. cbn [flat_map]. rewrite IH. reflexivity.
 Qed.
 
+Section PP.
+  (* the part that needs only the slot table: names unique, none reserved, slots = states, no slot twice *)
+  Context {T : Type} (o : ode) (wd : bool) (ss : list string) (inp : inputs T).
+  Hypothesis W1 : NoDup (all_names o).
+  Hypothesis W2 : forall x, In x (all_names o) -> resv wd x = false.
+  Hypothesis W3 : forall s, In s ss <-> In s (map d_name (o_states o)).
+  Hypothesis ss_nodup : NoDup ss.
+  Hypothesis W5 : forall x, In x (missing_names o) -> resv wd x = false.
+
+  Let snames := map d_name (o_states o).
+  Let pnames := map d_name (o_params o).
+  Let anames := map a_name (assigns o).
+
+  Lemma all_names_eq_g : all_names o = snames ++ pnames ++ anames.
+  Proof. reflexivity. Qed.
+
+  Lemma nd_parts_g :
+    NoDup snames /\ NoDup pnames /\ NoDup anames
+    /\ (forall x, In x snames -> ~ In x pnames) /\ (forall x, In x snames -> ~ In x anames)
+    /\ (forall x, In x pnames -> ~ In x anames).
+  Proof.
+    pose proof W1 as H. rewrite all_names_eq_g in H.
+    destruct (NoDup_app_elim _ _ H) as (H1 & H2 & H3).
+    destruct (NoDup_app_elim _ _ H2) as (H4 & H5 & H6).
+    repeat split; try assumption.
+    - intros x Hx Hc. apply (H3 x Hx). apply in_or_app. left. exact Hc.
+    - intros x Hx Hc. apply (H3 x Hx). apply in_or_app. right. exact Hc.
+  Qed.
+
+  Notation vb := (valid_body o ss inp wd).
+  Notation oks := (ok_stmt o ss inp wd).
+  Notation d0 := (reserved inp wd).
+  Notation nret := (length (state_names o)).
+
+  Lemma in_all_s_g x : In x snames -> In x (all_names o).
+  Proof. intros H. rewrite all_names_eq_g. apply in_or_app. left. exact H. Qed.
+  Lemma in_all_p_g x : In x pnames -> In x (all_names o).
+  Proof. intros H. rewrite all_names_eq_g. apply in_or_app. right. apply in_or_app. left. exact H. Qed.
+  Lemma in_all_a_g x : In x anames -> In x (all_names o).
+  Proof. intros H. rewrite all_names_eq_g. apply in_or_app. right. apply in_or_app. right. exact H. Qed.
+
+  Lemma not_reserved_g x : In x (all_names o) -> mem x d0 = false.
+  Proof. intros H. rewrite reserved_mem. exact (W2 x H). Qed.
+
+  Lemma is_assign_false_g x : ~ In x anames -> is_assign o x = false.
+  Proof. intros H. unfold is_assign. rewrite (find_assign_None o x H). reflexivity. Qed.
+
+  Lemma okS_g nr i x d' : In (i, x) (enumerate ss) -> ~ In x d' -> oks nr d' (SUnpackS x i) = true.
+  Proof.
+    intros Hin Hd. apply enumerate_nth in Hin.
+    assert (Hxs : In x snames) by (apply W3; eapply nth_error_In; eauto).
+    destruct nd_parts_g as (_ & _ & _ & _ & Hsa & _).
+    unfold ok_stmt. rewrite (proj2 (mem_false_In x d') Hd), (not_reserved_g x (in_all_s_g x Hxs)),
+      (is_assign_false_g x (Hsa x Hxs)), (NoDup_index_of ss i x ss_nodup Hin).
+    simpl. apply Nat.eqb_refl.
+  Qed.
+
+  Lemma okP_g nr i x d' : In (i, x) (enumerate (param_names o)) -> ~ In x d' -> oks nr d' (SUnpackP x i) = true.
+  Proof.
+    intros Hin Hd. apply enumerate_nth in Hin.
+    assert (Hxp : In x pnames).
+    { apply nth_error_In in Hin. unfold param_names in Hin. rewrite sort_names_In in Hin. exact Hin. }
+    destruct nd_parts_g as (_ & Hnp & _ & Hsp & _ & Hpa).
+    assert (Hns : mem x ss = false).
+    { apply mem_false_In. intros Hc. apply W3 in Hc. exact (Hsp x Hc Hxp). }
+    assert (Hndp : NoDup (param_names o)) by (apply sort_names_NoDup; exact Hnp).
+    unfold ok_stmt. rewrite (proj2 (mem_false_In x d') Hd), (not_reserved_g x (in_all_p_g x Hxp)),
+      (is_assign_false_g x (Hpa x Hxp)), Hns, (NoDup_index_of _ i x Hndp Hin).
+    simpl. apply Nat.eqb_refl.
+  Qed.
+
+  Lemma missing_unknown_g x : In x (missing_names o) ->
+    ~ In x pnames /\ ~ In x snames /\ ~ In x anames /\ reserved_time x = false.
+  Proof.
+    intros H. apply missing_names_spec in H. destruct H as [_ H]. unfold known_symbol in H.
+    repeat (apply orb_false_iff in H; destruct H as [H ?]).
+    repeat split; try (apply mem_false_In; assumption).
+    unfold reserved_time. rewrite H0, H1. reflexivity.
+  Qed.
+
+  Lemma okM_g nr i x d' : In (i, x) (enumerate (missing_names o)) -> ~ In x d' -> oks nr d' (SUnpackM x i) = true.
+  Proof.
+    intros Hin Hd. apply enumerate_nth in Hin.
+    destruct (missing_unknown_g x (nth_error_In _ _ Hin)) as (Hp & Hs & Ha & Hr).
+    assert (Hns : mem x ss = false).
+    { apply mem_false_In. intros Hc. apply W3 in Hc. contradiction. }
+    assert (Hnp : mem x (param_names o) = false).
+    { apply mem_false_In. intros Hc. unfold param_names in Hc. rewrite sort_names_In in Hc. contradiction. }
+    assert (Hndm : NoDup (missing_names o)) by (apply sort_names_NoDup, dedup_NoDup).
+    unfold ok_stmt. rewrite (proj2 (mem_false_In x d') Hd), reserved_mem, (W5 x (nth_error_In _ _ Hin)),
+      (is_assign_false_g x Ha), Hns, Hnp, (NoDup_index_of _ i x Hndm Hin).
+    simpl. apply Nat.eqb_refl.
+  Qed.
+
+  Section Prologue.
+    Variables sk pk : string -> bool.
+    Let bS := block SUnpackS sk (enumerate ss).
+    Let bP := block SUnpackP pk (enumerate (param_names o)).
+    Let bM := block SUnpackM keep_all (enumerate (missing_names o)).
+
+    Lemma prologue_eq_g : prologue o ss sk pk = bS ++ bP ++ bM.
+    Proof. reflexivity. Qed.
+
+    Lemma in_enum_g {A} (l : list A) y : (exists i, In (i, y) (enumerate l)) <-> In y l.
+    Proof.
+      split.
+      - intros [i H]. apply enumerate_nth in H. eapply nth_error_In; eauto.
+      - intros H. apply In_nth_error in H. destruct H as [i H]. exists i. apply enumerate_nth. exact H.
+    Qed.
+
+    Lemma prologue_defs_g y :
+      In y (defs_after (prologue o ss sk pk) d0) <->
+      resv wd y = true \/ (sk y = true /\ In y ss) \/ (pk y = true /\ In y (param_names o))
+      \/ In y (missing_names o).
+    Proof.
+      rewrite prologue_eq_g. unfold defs_after. rewrite !fold_left_app.
+      fold (defs_after bS d0). fold (defs_after bP (defs_after bS d0)).
+      fold (defs_after bM (defs_after bP (defs_after bS d0))).
+      unfold bM, bP, bS. rewrite !block_defs by reflexivity. rewrite !in_enum_g.
+      rewrite <- (mem_In y d0), reserved_mem. unfold keep_all. tauto.
+    Qed.
+
+    Lemma prologue_valid_g nr : vb nr d0 (prologue o ss sk pk) = true.
+    Proof.
+      rewrite prologue_eq_g, !valid_body_app. repeat (apply andb_true_iff; split).
+      - unfold bS. apply block_valid; [reflexivity| | |exact (okS_g nr)].
+        + unfold enumerate. rewrite map_snd_enum_from. exact ss_nodup.
+        + intros i x Hin. apply mem_false_In. apply not_reserved_g, in_all_s_g, W3.
+          apply enumerate_nth in Hin. eapply nth_error_In; eauto.
+      - unfold bP. apply block_valid; [reflexivity| | |exact (okP_g nr)].
+        + unfold enumerate. rewrite map_snd_enum_from. apply sort_names_NoDup. exact (proj1 (proj2 nd_parts_g)).
+        + intros i x Hin Hc. apply enumerate_nth in Hin. apply nth_error_In in Hin.
+          unfold param_names in Hin. rewrite sort_names_In in Hin. fold pnames in Hin.
+          unfold bS in Hc. rewrite block_defs in Hc by reflexivity. destruct Hc as [Hc|[_ Hc]].
+          * apply mem_In in Hc. rewrite (not_reserved_g x (in_all_p_g x Hin)) in Hc. discriminate.
+          * apply in_enum_g, W3 in Hc. destruct nd_parts_g as (_ & _ & _ & Hsp & _). exact (Hsp x Hc Hin).
+      - unfold bM. apply block_valid; [reflexivity| | |exact (okM_g nr)].
+        + unfold enumerate. rewrite map_snd_enum_from. apply sort_names_NoDup, dedup_NoDup.
+        + intros i x Hin Hc. apply enumerate_nth in Hin. apply nth_error_In in Hin.
+          destruct (missing_unknown_g x Hin) as (Hp & Hs & Ha & Hr).
+          unfold bP, bS in Hc. rewrite !block_defs in Hc by reflexivity.
+          destruct Hc as [[Hc|[_ Hc]]|[_ Hc]].
+          * apply mem_In in Hc. rewrite reserved_mem, (W5 x Hin) in Hc. discriminate.
+          * apply in_enum_g, W3 in Hc. contradiction.
+          * apply in_enum_g in Hc. unfold param_names in Hc. rewrite sort_names_In in Hc. contradiction.
+    Qed.
+
+    Lemma prologue_no_store_g j : stores_at j (prologue o ss sk pk) = [].
+    Proof.
+      rewrite prologue_eq_g. unfold stores_at. rewrite !flat_map_app.
+      fold (stores_at j bS). fold (stores_at j bP). fold (stores_at j bM).
+      unfold bS, bP, bM. rewrite !block_no_store; [reflexivity| | |]; intros; exact I.
+    Qed.
+  End Prologue.
+
+End PP.
+
 Section Mirror.
   Context {T : Type} (o : ode) (ru wd : bool) (ss ord : list string) (inp : inputs T).
   Hypothesis Hss : sorted_states o = Some ss.
@@ -257,22 +414,13 @@ Section Mirror.
   Let anames := map a_name (assigns o).
   Let isd := is_deriv_name o.
   Let dl := filter isd ord.
-
-  Lemma all_names_eq : all_names o = snames ++ pnames ++ anames.
-  Proof. reflexivity. Qed.
-
-  Lemma nd_parts :
-    NoDup snames /\ NoDup pnames /\ NoDup anames
-    /\ (forall x, In x snames -> ~ In x pnames) /\ (forall x, In x snames -> ~ In x anames)
-    /\ (forall x, In x pnames -> ~ In x anames).
-  Proof.
-    pose proof W1 as H. rewrite all_names_eq in H.
-    destruct (NoDup_app_elim _ _ H) as (H1 & H2 & H3).
-    destruct (NoDup_app_elim _ _ H2) as (H4 & H5 & H6).
-    repeat split; try assumption.
-    - intros x Hx Hc. apply (H3 x Hx). apply in_or_app. left. exact Hc.
-    - intros x Hx Hc. apply (H3 x Hx). apply in_or_app. right. exact Hc.
-  Qed.
+  Notation nd_parts := (nd_parts_g o W1).
+  Notation in_all_s := (in_all_s_g o).
+  Notation in_all_p := (in_all_p_g o).
+  Notation in_all_a := (in_all_a_g o).
+  Notation missing_unknown := (missing_unknown_g o).
+  Notation is_assign_false := (is_assign_false_g o).
+  Notation all_names_eq := (all_names_eq_g o).
 
   Lemma inter_deriv_disjoint x : In x (map a_name (o_derivs o)) -> is_inter_name o x = false.
   Proof.
@@ -338,128 +486,9 @@ Section Mirror.
   Notation oks := (ok_stmt o ss inp wd).
   Notation d0 := (reserved inp wd).
   Notation nret := (length (state_names o)).
-
-  Lemma in_all_s x : In x snames -> In x (all_names o).
-  Proof. intros H. rewrite all_names_eq. apply in_or_app. left. exact H. Qed.
-  Lemma in_all_p x : In x pnames -> In x (all_names o).
-  Proof. intros H. rewrite all_names_eq. apply in_or_app. right. apply in_or_app. left. exact H. Qed.
-  Lemma in_all_a x : In x anames -> In x (all_names o).
-  Proof. intros H. rewrite all_names_eq. apply in_or_app. right. apply in_or_app. right. exact H. Qed.
-
-  Lemma not_reserved x : In x (all_names o) -> mem x d0 = false.
-  Proof. intros H. rewrite reserved_mem. exact (W2 x H). Qed.
-
-  Lemma is_assign_false x : ~ In x anames -> is_assign o x = false.
-  Proof. intros H. unfold is_assign. rewrite (find_assign_None o x H). reflexivity. Qed.
-
-  Lemma okS nr i x d' : In (i, x) (enumerate ss) -> ~ In x d' -> oks nr d' (SUnpackS x i) = true.
-  Proof.
-    intros Hin Hd. apply enumerate_nth in Hin.
-    assert (Hxs : In x snames) by (apply W3; eapply nth_error_In; eauto).
-    destruct nd_parts as (_ & _ & _ & _ & Hsa & _).
-    unfold ok_stmt. rewrite (proj2 (mem_false_In x d') Hd), (not_reserved x (in_all_s x Hxs)),
-      (is_assign_false x (Hsa x Hxs)), (NoDup_index_of ss i x ss_nodup Hin).
-    simpl. apply Nat.eqb_refl.
-  Qed.
-
-  Lemma okP nr i x d' : In (i, x) (enumerate (param_names o)) -> ~ In x d' -> oks nr d' (SUnpackP x i) = true.
-  Proof.
-    intros Hin Hd. apply enumerate_nth in Hin.
-    assert (Hxp : In x pnames).
-    { apply nth_error_In in Hin. unfold param_names in Hin. rewrite sort_names_In in Hin. exact Hin. }
-    destruct nd_parts as (_ & Hnp & _ & Hsp & _ & Hpa).
-    assert (Hns : mem x ss = false).
-    { apply mem_false_In. intros Hc. apply W3 in Hc. exact (Hsp x Hc Hxp). }
-    assert (Hndp : NoDup (param_names o)) by (apply sort_names_NoDup; exact Hnp).
-    unfold ok_stmt. rewrite (proj2 (mem_false_In x d') Hd), (not_reserved x (in_all_p x Hxp)),
-      (is_assign_false x (Hpa x Hxp)), Hns, (NoDup_index_of _ i x Hndp Hin).
-    simpl. apply Nat.eqb_refl.
-  Qed.
-
-  Lemma missing_unknown x : In x (missing_names o) ->
-    ~ In x pnames /\ ~ In x snames /\ ~ In x anames /\ reserved_time x = false.
-  Proof.
-    intros H. apply missing_names_spec in H. destruct H as [_ H]. unfold known_symbol in H.
-    repeat (apply orb_false_iff in H; destruct H as [H ?]).
-    repeat split; try (apply mem_false_In; assumption).
-    unfold reserved_time. rewrite H0, H1. reflexivity.
-  Qed.
-
-  Lemma okM nr i x d' : In (i, x) (enumerate (missing_names o)) -> ~ In x d' -> oks nr d' (SUnpackM x i) = true.
-  Proof.
-    intros Hin Hd. apply enumerate_nth in Hin.
-    destruct (missing_unknown x (nth_error_In _ _ Hin)) as (Hp & Hs & Ha & Hr).
-    assert (Hns : mem x ss = false).
-    { apply mem_false_In. intros Hc. apply W3 in Hc. contradiction. }
-    assert (Hnp : mem x (param_names o) = false).
-    { apply mem_false_In. intros Hc. unfold param_names in Hc. rewrite sort_names_In in Hc. contradiction. }
-    assert (Hndm : NoDup (missing_names o)) by (apply sort_names_NoDup, dedup_NoDup).
-    unfold ok_stmt. rewrite (proj2 (mem_false_In x d') Hd), reserved_mem, (W5 x (nth_error_In _ _ Hin)),
-      (is_assign_false x Ha), Hns, Hnp, (NoDup_index_of _ i x Hndm Hin).
-    simpl. apply Nat.eqb_refl.
-  Qed.
-
-  Section Prologue.
-    Variables sk pk : string -> bool.
-    Let bS := block SUnpackS sk (enumerate ss).
-    Let bP := block SUnpackP pk (enumerate (param_names o)).
-    Let bM := block SUnpackM keep_all (enumerate (missing_names o)).
-
-    Lemma prologue_eq : prologue o ss sk pk = bS ++ bP ++ bM.
-    Proof. reflexivity. Qed.
-
-    Lemma in_enum {A} (l : list A) y : (exists i, In (i, y) (enumerate l)) <-> In y l.
-    Proof.
-      split.
-      - intros [i H]. apply enumerate_nth in H. eapply nth_error_In; eauto.
-      - intros H. apply In_nth_error in H. destruct H as [i H]. exists i. apply enumerate_nth. exact H.
-    Qed.
-
-    Lemma prologue_defs y :
-      In y (defs_after (prologue o ss sk pk) d0) <->
-      resv wd y = true \/ (sk y = true /\ In y ss) \/ (pk y = true /\ In y (param_names o))
-      \/ In y (missing_names o).
-    Proof.
-      rewrite prologue_eq. unfold defs_after. rewrite !fold_left_app.
-      fold (defs_after bS d0). fold (defs_after bP (defs_after bS d0)).
-      fold (defs_after bM (defs_after bP (defs_after bS d0))).
-      unfold bM, bP, bS. rewrite !block_defs by reflexivity. rewrite !in_enum.
-      rewrite <- (mem_In y d0), reserved_mem. unfold keep_all. tauto.
-    Qed.
-
-    Lemma prologue_valid nr : vb nr d0 (prologue o ss sk pk) = true.
-    Proof.
-      rewrite prologue_eq, !valid_body_app. repeat (apply andb_true_iff; split).
-      - unfold bS. apply block_valid; [reflexivity| | |exact (okS nr)].
-        + unfold enumerate. rewrite map_snd_enum_from. exact ss_nodup.
-        + intros i x Hin. apply mem_false_In. apply not_reserved, in_all_s, W3.
-          apply enumerate_nth in Hin. eapply nth_error_In; eauto.
-      - unfold bP. apply block_valid; [reflexivity| | |exact (okP nr)].
-        + unfold enumerate. rewrite map_snd_enum_from. apply sort_names_NoDup. exact (proj1 (proj2 nd_parts)).
-        + intros i x Hin Hc. apply enumerate_nth in Hin. apply nth_error_In in Hin.
-          unfold param_names in Hin. rewrite sort_names_In in Hin. fold pnames in Hin.
-          unfold bS in Hc. rewrite block_defs in Hc by reflexivity. destruct Hc as [Hc|[_ Hc]].
-          * apply mem_In in Hc. rewrite (not_reserved x (in_all_p x Hin)) in Hc. discriminate.
-          * apply in_enum, W3 in Hc. destruct nd_parts as (_ & _ & _ & Hsp & _). exact (Hsp x Hc Hin).
-      - unfold bM. apply block_valid; [reflexivity| | |exact (okM nr)].
-        + unfold enumerate. rewrite map_snd_enum_from. apply sort_names_NoDup, dedup_NoDup.
-        + intros i x Hin Hc. apply enumerate_nth in Hin. apply nth_error_In in Hin.
-          destruct (missing_unknown x Hin) as (Hp & Hs & Ha & Hr).
-          unfold bP, bS in Hc. rewrite !block_defs in Hc by reflexivity.
-          destruct Hc as [[Hc|[_ Hc]]|[_ Hc]].
-          * apply mem_In in Hc. rewrite reserved_mem, (W5 x Hin) in Hc. discriminate.
-          * apply in_enum, W3 in Hc. contradiction.
-          * apply in_enum in Hc. unfold param_names in Hc. rewrite sort_names_In in Hc. contradiction.
-    Qed.
-
-    Lemma prologue_no_store j : stores_at j (prologue o ss sk pk) = [].
-    Proof.
-      rewrite prologue_eq. unfold stores_at. rewrite !flat_map_app.
-      fold (stores_at j bS). fold (stores_at j bP). fold (stores_at j bM).
-      unfold bS, bP, bM. rewrite !block_no_store; [reflexivity| | |]; intros; exact I.
-    Qed.
-  End Prologue.
-
+  Notation prologue_valid := (prologue_valid_g o wd ss inp W1 W2 W3 ss_nodup W5).
+  Notation prologue_defs := (prologue_defs_g o wd ss inp).
+  Notation prologue_no_store := (prologue_no_store_g o ss).
   (* ---------- the statements of the body ---------- *)
   Lemma a_expr_of_eq n a : find_assign o n = Some a -> a_expr_of o n = a_expr a.
   Proof. intros H. unfold a_expr_of. rewrite H. reflexivity. Qed.
